@@ -70,7 +70,7 @@ def gen_plan(seed, tier):
   steps = []
   for _ in range(n):
     k = r.wpick([(9, "flow_mod"), (6, "frame"), (5, "advance"),
-                 (1, "packet_out"), (0.6, "reconnect")])
+                 (2, "packet_out"), (0.6, "reconnect")])
     if k == "reconnect":
       # the control connection is replaced; the switch and its table stay
       steps.append({"op": "reconnect", "how": r.pick(["close", "reset"])})
@@ -122,6 +122,11 @@ def gen_plan(seed, tier):
       fs, port = r.pick(base)
       steps.append({"op": "packet_out", "in_port": W.OFPP_NONE,
                     "acts": [["output", r.randint(1, nports), 0]], "f": fs})
+      if r.chance(0.5):
+        # traffic through the table that did not arrive on a port: it is
+        # traffic all the same (counters, idle clock)
+        steps[-1].update(acts=[["output", W.OFPP_TABLE, 0]],
+                         in_port=r.pick([W.OFPP_NONE, W.OFPP_NONE, port]))
   return {"prop": PROP, "seed": seed, "cfg": cfg, "steps": steps}
 
 
